@@ -84,6 +84,7 @@ type Path struct {
 	FallbackUsed int
 	pendingVal   uint64
 	implied      map[*sym.Term]bool // conditions already implied by the path condition
+	EvalOnly     map[string]uint64  // selftest mode: conditions are evaluated under this assignment, no forking
 	Emit         func(WorkItem) // publishes a newly discovered alternative at once
 }
 
@@ -118,6 +119,9 @@ func (m *Machine) truth(c value) bool {
 // branch decides a symbolic condition on this path.
 func (m *Machine) branch(cond *sym.Term) bool {
 	p := m.path
+	if p.EvalOnly != nil {
+		return sym.Eval(cond, p.EvalOnly) != 0
+	}
 	idx := len(p.Decisions)
 	if idx < len(p.Prefix) {
 		d := p.Prefix[idx]
